@@ -232,7 +232,6 @@ const Prelude = `
 (declare-const str.empty Str)
 (assert (= (slen str.empty) 0))
 (assert (forall ((s Str)) (! (<= 0 (slen s)) :pattern ((slen s)))))
-(assert (forall ((s Str) (i Int)) (! (and (<= 0 (sat s i)) (<= (sat s i) 255)) :pattern ((sat s i)))))
 (assert (forall ((s Str)) (! (=> (= (slen s) 0) (= s str.empty)) :pattern ((slen s)))))
 (define-fun wrap64 ((x Int)) Int (ite (> x 9223372036854775807) (- x 18446744073709551616) (ite (< x (- 9223372036854775808)) (+ x 18446744073709551616) x)))
 (define-fun in64 ((x Int)) Bool (and (<= (- 9223372036854775808) x) (<= x 9223372036854775807)))
